@@ -310,6 +310,57 @@ func hC09s2(n, L, vlen int) {
 
 func H_C09_s2() { hC09s2(2, 1, 2) }
 
+// hC09race: Close lands at a symbolic point of a running Compact (which has
+// sealed the segments it picked, among them the current one with unsynced
+// records). If Close returns nil, a power failure afterwards must not lose anything.
+func hC09race(syncMode int) {
+	n := 2
+	vlen := 2
+	pfs := &powerFS{inner: fs.Mem}
+	rec := 10 + 8 + vlen
+	mk := func(fsys fs.FileSystem) *Options {
+		o := smallOpts(fsys, 2, rec)
+		if syncMode == 1 {
+			o.BackgroundSyncInterval = time.Duration(-1)
+		}
+		return o
+	}
+	dir := "c09r"
+	db, err := Open(dir, mk(pfs))
+	vAssert(err == nil, "C09r.open")
+	if err != nil {
+		return
+	}
+	r := newRef(n, 8)
+	// seg0 [k0 k1], current seg1 [k0' k0'']: both hold dead records, both get picked
+	for _, k := range []int{0, 1, 0, 0} {
+		applyOp(db, r, 0, k, vlen, "C09r.prefix")
+	}
+	var cerr error
+	closed := false
+	vConcurrentWithMaintenance(func() {
+		_, _ = db.Compact() // may fail once the files are closed: that is fine
+	}, []vOp{{op: 4}}, func(i int) {
+		cerr = db.Close()
+		closed = true
+	}, nil)
+	if !closed || cerr != nil {
+		return // Close did not complete successfully: the property makes no promise
+	}
+	vCover("C09r.close-succeeded-while-compaction-in-flight")
+	pfs.powerFail()
+	db2, err := Open(dir, mk(fs.Mem))
+	vAssert(err == nil, "C09r.open-after-power-loss-succeeds")
+	if err != nil {
+		return
+	}
+	checkReads(db2, r, "C09r.after")
+	checkItems(db2, r, "C09r.after")
+	vCover("C09r.done")
+}
+
+func H_C09_race() { hC09race(0) }
+
 func H_C09_q()   { hC09(2, 2, 1, 2, 0, false) }
 func H_C09_sw()  { hC09(2, 2, 1, 2, 1, false) }
 func H_C09_mid() { hC09(2, 2, 1, 2, 0, true) }
